@@ -29,9 +29,9 @@ class C21(dfir.DfirSpec):
         if self.failed(res):
             return 3
         p = dfir.catalogue()[case["prog"]]
-        return "c21_chk prog_%d (%s) %s %s %s %s" % (
+        return dfir.guard(case["prog"], "c21_chk prog_%d (%s) %s %s %s %s" % (
             case["prog"], p.spec, dfir.g_bools(p.sinks), dfir.g_hist(case["hist"]),
-            dfir.g_outs(res["outs"]), "[" + "; ".join(str(x) for x in res["obs"]) + "]")
+            dfir.g_outs(res["outs"]), "[" + "; ".join(str(x) for x in res["obs"]) + "]"))
 
 
 def main(ctx):
